@@ -215,7 +215,17 @@ func structural(c *capture, perClass int, rng *rand.Rand, pool *leafPool, others
 			return r
 		})
 	}
-	for _, i := range sel(func(s site) bool { return s.n.mt == mtArray }) {
+	// arrays are few and each carries its own length rule (share components, matrix rows, levels): up to 16 of them all run
+	arrIdx := []int{}
+	for i, s := range ss {
+		if s.n.mt == mtArray {
+			arrIdx = append(arrIdx, i)
+		}
+	}
+	if len(arrIdx) > 16 {
+		arrIdx = pick(arrIdx)
+	}
+	for _, i := range arrIdx {
 		emit("arr", "empty", i, func(s site, r *node) *node { s.n.kids = nil; return r })
 		if len(ss[i].n.kids) > 0 {
 			emit("arr", "droplast", i, func(s site, r *node) *node { s.n.kids = s.n.kids[:len(s.n.kids)-1]; return r })
